@@ -263,7 +263,7 @@ class PianorollSequence(events_lib.EventSequence):
         new_note.program = program
         open_notes[pitch_to_open] = new_note
 
-    final_step = step + (len(open_notes) > 0)  # pylint: disable=g-explicit-length-test
+    final_step = len(self)
     for note_to_close in open_notes.values():
       note_to_close.end_time = (
           final_step * seconds_per_step + sequence_start_time)
